@@ -24,6 +24,11 @@ if [ "$MODE" = instr ]; then
     exit 2
   fi
 else
+  if [ "$ID" = C20 ]; then
+    # the js/wasm module built from the current tree, staged next to the package's own entry module
+    mkdir -p "$WORK/stage/lib" && cp -r "$REPO/otp-js/src" "$WORK/stage/src" 2>/dev/null
+    if command -v node >/dev/null && (cd "$REPO" && GOFLAGS= GOOS=js GOARCH=wasm go build -o "$WORK/stage/lib/otp.wasm" ./wasm) 2>"$WORK/wasm.err"; then export VERIF_WASM_STAGE="$WORK/stage"; else echo "note: wasm build or node unavailable: $(head -3 "$WORK/wasm.err" 2>/dev/null)" >&2; fi
+  fi
   if ! go build -tags verif -o "$WORK/vrun" ./cmd/vrun 2>"$WORK/build.err"; then
     echo "HARNESS-ERROR: harness does not build against the current tree:" >&2
     head -30 "$WORK/build.err" >&2
